@@ -11,10 +11,12 @@ META = {
             "(group children by state, round robin over the group of the aggregate state, arbitrary order and start); TLC checks that the "
             "reported state equals Agg(multiset) = READY > CONNECTING > IDLE > TRANSIENT_FAILURE (TF when empty), that the picker "
             "delegates only to children in the aggregate state and that every window of k consecutive picks among n such children uses "
-            "each floor(k/n) or ceil(k/n) times, for all add/remove/transition sequences (3 negative controls: IDLE preferred over "
+            "each floor(k/n) or ceil(k/n) times, for all add/remove/transition sequences (negative controls: a replaced child's old contribution kept in the counters, IDLE preferred over "
             "CONNECTING, IDLE children mixed into the CONNECTING picker, counter stepping by 2). Every transition of a bounded scope and "
             "seeded random long input sequences (incl. resolver updates with duplicate endpoints, resolver errors, ExitIdle) are executed "
-            "on the real ConnectivityStateEvaluator, on endpointsharding with stub children and on weightedtarget's aggregator; TLC "
+            "on the real ConnectivityStateEvaluator, on endpointsharding with stub children, on weightedtarget's aggregator and on the real "
+            "weighted_target balancer (stub child policies under two registered names: config updates add / remove targets, change weights "
+            "and replace a target's child policy type -- the old child's contribution must vanish, the new child starts CONNECTING); TLC "
             "validates every recorded step (reported state, 3n+2 probes of the published picker) against the specification.",
     "note": "weightedaggregator documents a sticky per-child TRANSIENT_FAILURE (TF->CONNECTING keeps counting as TF); the monitor "
             "accepts the aggregate over the raw or the sticky child states for that target (R2 weaker reading) and only checks picker "
@@ -31,6 +33,8 @@ def step_of(state_text, label):
         return {"a": "add", "c": int(args[0]), "s": args[1]}
     if name == "Remove":
         return {"a": "remove", "c": int(args[0])}
+    if name == "Repl":
+        return {"a": "repl", "c": int(args[0])}
     if name == "Trans":
         return {"a": "trans", "c": int(args[0]), "s": args[1]}
     raise Inconclusive("unknown action label " + label)
@@ -55,6 +59,7 @@ def run(ctx):
     ctx.mc("AggregateMC", ctx.pick("AggregateMC.cfg", "AggregateMCT.cfg"), workers=ctx.pick(4, 8))
     ctx.neg("AggregateMC", "AggregateNeg.cfg", expect="I_AggState", workers=2)
     ctx.neg("AggregateMC", "AggregateNeg3.cfg", expect="I_RRFair", workers=2)
+    ctx.neg("AggregateMC", "AggregateNeg4.cfg", expect="I_AggState", workers=2)
     if not ctx.quick():
         ctx.neg("AggregateMC", "AggregateNeg2.cfg", expect="I_PickOnlyAgg", workers=2)
     binary = ctx.go_build("internal/zzverif/c35")
@@ -65,7 +70,7 @@ def run(ctx):
     write_ndjson(bpath, behs)
     ctx.driver(binary, "TestVerifC35Replay", {"VERIF_BEHAVIOURS": bpath, "VERIF_OUT": tpath})
     for b in behs:
-        ctx.count(b, nontrivial=len(b) >= 2, n=3)
+        ctx.count(b, nontrivial=len(b) >= 2, n=4)
     ctx.sample(behs[len(behs) // 2])
     tpath2 = os.path.join(ctx.run, "trace-random.ndjson")
     n = ctx.pick(150, 3000)
@@ -77,5 +82,5 @@ def run(ctx):
     judge(ctx, ctx.validate("AggregateTrace", "AggregateTrace.cfg", tall), tall,
           "replayed TLC behaviours + random input sequences (seed %d)" % ctx.seed)
     ctx.cov["rule"] = ("behaviours = edge cover of the TLC state graph of Aggregate.tla (BFS prefix + one transition), each executed on "
-                       "ConnectivityStateEvaluator, endpointsharding and weightedaggregator; non-trivial = >= 2 steps; distinct by step "
+                       "ConnectivityStateEvaluator, endpointsharding, weightedaggregator and the weighted_target balancer; non-trivial = >= 2 steps; distinct by step "
                        "sequence; plus seeded random input sequences of 5-45 steps over up to 6 children")
